@@ -994,7 +994,7 @@ fn evaluate_binary_op_ast(
                         let r_list = list_r.reify(&borrowed_heap).as_list()?;
                         let mut mapped_list = Vec::with_capacity(list_len);
                         for (l, r) in l_list.iter().zip(r_list.iter()) {
-                            mapped_list.push(Bool(l.as_bool()? && r.as_bool()?));
+                            mapped_list.push(Bool(l.as_bool()? & r.as_bool()?));
                         }
                         mapped_list
                     };
@@ -1007,7 +1007,7 @@ fn evaluate_binary_op_ast(
                         let r_list = list_r.reify(&borrowed_heap).as_list()?;
                         let mut mapped_list = Vec::with_capacity(list_len);
                         for (l, r) in l_list.iter().zip(r_list.iter()) {
-                            mapped_list.push(Bool(l.as_bool()? || r.as_bool()?));
+                            mapped_list.push(Bool(l.as_bool()? | r.as_bool()?));
                         }
                         mapped_list
                     };
@@ -1273,11 +1273,11 @@ fn evaluate_binary_op_ast(
                         let mut mapped_list = Vec::with_capacity(list_ref.len());
                         if is_list_first {
                             for v in list_ref.iter() {
-                                mapped_list.push(Bool(v.as_bool()? && scalar.as_bool()?));
+                                mapped_list.push(Bool(v.as_bool()? & scalar.as_bool()?));
                             }
                         } else {
                             for v in list_ref.iter() {
-                                mapped_list.push(Bool(scalar.as_bool()? && v.as_bool()?));
+                                mapped_list.push(Bool(scalar.as_bool()? & v.as_bool()?));
                             }
                         }
                         mapped_list
@@ -1291,11 +1291,11 @@ fn evaluate_binary_op_ast(
                         let mut mapped_list = Vec::with_capacity(list_ref.len());
                         if is_list_first {
                             for v in list_ref.iter() {
-                                mapped_list.push(Bool(v.as_bool()? || scalar.as_bool()?));
+                                mapped_list.push(Bool(v.as_bool()? | scalar.as_bool()?));
                             }
                         } else {
                             for v in list_ref.iter() {
-                                mapped_list.push(Bool(scalar.as_bool()? || v.as_bool()?));
+                                mapped_list.push(Bool(scalar.as_bool()? | v.as_bool()?));
                             }
                         }
                         mapped_list
@@ -1698,8 +1698,11 @@ fn evaluate_binary_op_ast(
                 op_span,
                 source.clone(),
             )?)),
-            BinaryOp::And | BinaryOp::NaturalAnd => Ok(Bool(lhs.as_bool()? && rhs.as_bool()?)),
-            BinaryOp::Or | BinaryOp::NaturalOr => Ok(Bool(lhs.as_bool()? || rhs.as_bool()?)),
+            // `&` / `|` rather than `&&` / `||`: both operands are already evaluated, and both must
+            // be booleans even when the left one alone decides the result (`true or null` is an error,
+            // like `null or true`); the same holds for the broadcasting arms above.
+            BinaryOp::And | BinaryOp::NaturalAnd => Ok(Bool(lhs.as_bool()? & rhs.as_bool()?)),
+            BinaryOp::Or | BinaryOp::NaturalOr => Ok(Bool(lhs.as_bool()? | rhs.as_bool()?)),
             BinaryOp::Add => {
                 if lhs.is_string() {
                     let (l_str, r_str) = {
